@@ -6,7 +6,7 @@
    (gen_cross = model_cross).  Coordinates are exact rationals. *)
 From Coq Require Import String.
 From Coq Require Import ZArith QArith List Bool.
-From Verif Require Import Model.C15 Proofs.C15 Proofs.C15_sweep Proofs.C15_copy Proofs.C15_persist Proofs.C15_decimal Gen.PnpolyGen Bridge.C15_bridge.
+From Verif Require Import Model.C15 Proofs.C15 Proofs.C15_rays Proofs.C15_winding Proofs.C15_copy Proofs.C15_persist Proofs.C15_decimal Gen.PnpolyGen Bridge.C15_bridge.
 Import ListNotations.
 Open Scope Q_scope.
 
@@ -64,7 +64,9 @@ Theorem C15_repeated_vertex_invariant :
 Proof. exact gen_repeated_vertex_invariant. Qed.
 Print Assumptions C15_repeated_vertex_invariant.
 
-(* PolygonFilter.filter with inverted=True is the pointwise complement. *)
+(* PolygonFilter.filter with inverted=True is the pointwise complement (this one
+   only unfolds the model of filter(); the statement with content is
+   C15_filter_is_winding_parity below). *)
 Theorem C15_invert_complement :
   forall (poly pts : list pt),
     gen_filter true poly pts = map negb (gen_filter false poly pts)
@@ -105,30 +107,46 @@ Theorem C15_copy_new_id :
 Proof. exact @copy_new_id. Qed.
 Print Assumptions C15_copy_new_id.
 
-(* Complete finite sweep (evaluated over Z, transferred by inject_Z): every
-   triangle with vertices on the 4x4 grid and every quadrilateral on the 3x3
-   grid (grid spacing 2, i.e. the unit grid scaled by 2; self-intersecting and
-   degenerate ones included) and every integer query point of [-1, 2k-1]^2
-   (the half-integer points of the unit grid) off the boundary: the result
-   equals the parity of the winding number (computed from quadrants, no ray)
-   and the parity for the ray towards -x. *)
-Theorem C15_sweep :
-  forall (zpoly : list zpt) (zp : zpt),
-    (length zpoly = 3%nat /\ Forall (fun v => In v (zgrid 4)) zpoly /\ In zp (zquery 4))
-    \/ (length zpoly = 4%nat /\ Forall (fun v => In v (zgrid 3)) zpoly /\ In zp (zquery 3)) ->
-    on_boundary (map inj zpoly) (inj zp) = false ->
-    gen_pip (map inj zpoly) (inj zp) = winding_odd (map inj zpoly) (inj zp)
-    /\ gen_pip (map inj zpoly) (inj zp) = pip cross_left (map inj zpoly) (inj zp)
-    /\ (winding4 (map inj zpoly) (inj zp) mod 4 = 0)%Z.
-Proof. exact gen_sweep. Qed.
-Print Assumptions C15_sweep.
+(* EVERY polygon (any number of vertices, self-intersecting, repeated vertices)
+   and every point off its boundary: the result is the parity of the winding
+   number of the polygon around the point, computed from the quadrants of the
+   vertices seen from the point -- a quantity defined without any ray.  The
+   quarter turns add up to full turns (mod 4 = 0). *)
+Theorem C15_winding_parity :
+  forall (poly : list pt) (p : pt),
+    on_boundary poly p = false ->
+    gen_pip poly p = winding_odd poly p /\ (winding4 poly p mod 4 = 0)%Z.
+Proof. exact gen_winding_parity. Qed.
+Print Assumptions C15_winding_parity.
+
+(* The ray towards -x gives the same answer as the ray towards +x for every
+   polygon and every point off the boundary; in general position (no vertex
+   level with the point) the numbers of proper crossings of the two rays have
+   the same parity. *)
+Theorem C15_left_ray_agrees :
+  forall (poly : list pt) (p : pt),
+    on_boundary poly p = false ->
+    gen_pip poly p = pip cross_left poly p
+    /\ ((forall v, In v poly -> ~ snd v == snd p) ->
+        gen_pip poly p = spec_inside poly p /\ spec_inside poly p = spec_inside_left poly p).
+Proof. exact gen_left_ray. Qed.
+Print Assumptions C15_left_ray_agrees.
+
+(* PolygonFilter.filter with its inversion flag: the k-th result is the winding
+   parity of the k-th point, complemented when the filter is inverted. *)
+Theorem C15_filter_is_winding_parity :
+  forall (inv : bool) (poly pts : list pt) (k : nat) (p : pt),
+    nth_error pts k = Some p -> on_boundary poly p = false ->
+    nth_error (gen_filter inv poly pts) k = Some (xorb inv (winding_odd poly p)).
+Proof. exact gen_filter_winding. Qed.
+Print Assumptions C15_filter_is_winding_parity.
 
 (* .poly persistence (character-level model of save/save_all/_load/import_all,
    with the two proposed repairs: 17 significant digits, split at the first "=").
    For every number format whose printing round-trips and has the shape of a
    token, every list of filters with distinct non-negative identifiers not yet
-   registered, lower-case axes, at least one point and names without line
-   breaks or leading/trailing blanks: import_all (save_all fs) returns exactly
+   registered, lower-case axes, any number of points (also none) and names
+   without line breaks or leading/trailing blanks: import_all (save_all fs) returns exactly
    fs (axes, inversion, name, identifier, coordinates, order) and registers
    their identifiers. *)
 Theorem C15_roundtrip_partial :
@@ -148,6 +166,29 @@ Theorem C15_roundtrip_partial :
 Proof. exact roundtrip_partial. Qed.
 Print Assumptions C15_roundtrip_partial.
 
+(* "... and every classification": filter by filter, the reloaded filter
+   classifies every list of points like the saved one and carries the same
+   inversion flag, identifier, name and axes. *)
+Theorem C15_roundtrip_classification :
+  forall (fmtf : Q -> str) (parsef : str -> option Q) (fmt8 : Z -> str) (parse_int : str -> option Z),
+    (forall v, parsef (fmtf v) = Some v) ->
+    (forall v, token_ok (fmtf v) = true) ->
+    (forall n, (0 <= n)%Z -> parse_int (fmt8 n) = Some n) ->
+    (forall n, (0 <= n)%Z -> digits_ok (fmt8 n) = true) ->
+    forall (fs : list (pfilter Q)) (ids0 : list Z) (c0 : Z),
+      Forall (fun f => wf_filter f = true) fs ->
+      NoDup (map (f_id Q) fs) ->
+      (forall f, In f fs -> ~ In (f_id Q f) ids0) ->
+      exists fs' r',
+        import_all Q parsef parse_int (save_all Q fmtf fmt8 fs) (ids0, c0) = (LOk fs', r')
+        /\ length fs' = length fs
+        /\ forall k f f' pts, nth_error fs k = Some f -> nth_error fs' k = Some f' ->
+             gen_apply f' pts = gen_apply f pts /\ f_inv Q f' = f_inv Q f
+             /\ f_id Q f' = f_id Q f /\ f_name Q f' = f_name Q f
+             /\ f_ax Q f' = f_ax Q f /\ f_ay Q f' = f_ay Q f.
+Proof. exact gen_roundtrip_classification. Qed.
+Print Assumptions C15_roundtrip_classification.
+
 (* The same with the decimal formats of the executable model for identifiers
    and point numbers ('{:08d}' / int(): dec8 / parse_int_c, proved to satisfy the
    two integer hypotheses); only the coordinate format remains a premise. *)
@@ -164,6 +205,31 @@ Theorem C15_roundtrip_decimal :
         = (LOk fs, (ids0 ++ map (f_id F) fs, c')).
 Proof. exact roundtrip_decimal. Qed.
 Print Assumptions C15_roundtrip_decimal.
+
+(* import_all into ANY registry whose identifiers are below its counter (the
+   invariant _set_unique_id maintains) - in particular into the session that
+   still holds the saved instances, where identifiers clash: every filter comes
+   back in order with its axes, name, inversion flag and points; the
+   identifiers handed out are pairwise distinct and not in use.  No hypothesis
+   on the identifiers of the saved filters. *)
+Theorem C15_roundtrip_renumber :
+  forall (F : Type) (fmtf : F -> str) (parsef : str -> option F)
+         (fmt8 : Z -> str) (parse_int : str -> option Z),
+    (forall v, parsef (fmtf v) = Some v) ->
+    (forall v, token_ok (fmtf v) = true) ->
+    (forall n, (0 <= n)%Z -> parse_int (fmt8 n) = Some n) ->
+    (forall n, (0 <= n)%Z -> digits_ok (fmt8 n) = true) ->
+    forall (fs : list (pfilter F)) (ids0 : list Z) (c0 : Z),
+      Forall (fun f => wf_filter f = true) fs ->
+      (forall i, In i ids0 -> (i < c0)%Z) ->
+      exists fs' r',
+        import_all F parsef parse_int (save_all F fmtf fmt8 fs) (ids0, c0) = (LOk fs', r')
+        /\ Forall2 (same_but_id F) fs fs'
+        /\ NoDup (map (f_id F) fs')
+        /\ (forall g, In g fs' -> ~ In (f_id F g) ids0)
+        /\ fst r' = ids0 ++ map (f_id F) fs'.
+Proof. exact roundtrip_renumber. Qed.
+Print Assumptions C15_roundtrip_renumber.
 
 (* The guard on names cannot be dropped (finding C15-name-blanks): a name with
    a leading blank is reloaded without it, a name with a line break makes
